@@ -418,6 +418,10 @@ func ruleA12Reset(r *Run, p *Prog, fnName, tname string) {
 			if !ok {
 				return false
 			}
+			// `*e = Event{…}` re-initialises every field at once
+			if sx.Addr == obj {
+				return true
+			}
 			fa, ok := sx.Addr.(*ssa.FieldAddr)
 			return ok && fieldVar(fa) == fld && fa.X == obj
 		}
